@@ -2045,14 +2045,28 @@ func (r *TypeClassSummonContext) _summonVar(tc metafp.TypeClassDerive) SummonExp
 		// 	return fmt.Sprintf("%s%s %s[%s] ", privateName(v.TypeClass.Name), p.Name, tcname, p.Name)
 		// }).MakeString(",")
 
-		fargs := seq.Map(mapExpr.paramInstance, as.Func3(ParamInstance.Expr).ApplyLast2(r.w, ctx.tc.Package)).MakeString(",")
+		// the instance arguments follow the declared order of the type parameters ( callers pass them in that order ) ,
+		// not the order in which the fields happen to mention them
+		paramInstance := fp.Seq[ParamInstance]{}
+		for _, tp := range tc.DeriveFor.Info.TypeParam {
+			paramInstance = paramInstance.Concat(mapExpr.paramInstance.Filter(func(v ParamInstance) bool {
+				return v.ParamName == tp.Name
+			}))
+		}
+		paramInstance = paramInstance.Concat(mapExpr.paramInstance.FilterNot(func(v ParamInstance) bool {
+			return tc.DeriveFor.Info.TypeParam.Exists(func(tp metafp.TypeParam) bool {
+				return v.ParamName == tp.Name
+			})
+		}))
+
+		fargs := seq.Map(paramInstance, as.Func3(ParamInstance.Expr).ApplyLast2(r.w, ctx.tc.Package)).MakeString(",")
 
 		return newSummonExpr(fmt.Sprintf(`
 						func %s%s( %s ) %s[%s%s] {
 							return %s
 						}
 					`, tc.GeneratedInstanceName(), valuetpdec, fargs, tcname, tc.DeriveFor.PackagedName(r.w, workingPackage), valuetp,
-			mapExpr), mapExpr.paramInstance)
+			mapExpr), paramInstance)
 
 	} else {
 		tcname := tc.TypeClass.PackagedName(r.w, workingPackage)
